@@ -50,7 +50,7 @@ Section Transport.
   Variable decode : list N -> list frm.         (* how the transport frames its input stream *)
 
   (* the reply the transport hands out to the k-th read, given everything written so far *)
-  Definition kth_reply (w : list N) (k : nat) : option frm := nth_error (map reply_of (decode w)) k.
+  Definition kth_reply (w : list N) (k : nat) : option frm := option_map reply_of (nth_error (decode w) k).
 
   Inductive cstep : cst -> nat -> action -> cst -> Prop :=
   | c_acq_do s i f rs : ph (callers s i) = PIdle -> pending (callers s i) = CDo f :: rs ->
